@@ -93,7 +93,7 @@ def system_spec(kind, d, start):
     raise ValueError(kind)
 
 
-def control_spec(kind, d, n):
+def control_spec(kind, d, n, start=0.0):
     ctrl = oq.Control(d)
     pre, post = {}, {}
     if kind == "none":
@@ -107,6 +107,10 @@ def control_spec(kind, d, n):
     elif kind == "post":
         ctrl.add_single(0, kick, post=True)
         post[0] = kick
+    elif kind == "pre-float":
+        # the same control given by float time (relative to a possibly non-zero start time, slightly off grid)
+        ctrl.add_single(float(start + (step + 0.2) * DT), kick, post=False)
+        pre[step] = kick
     elif kind == "pre-last":
         ctrl.add_single(n, kick, post=False)
         pre[n] = kick
@@ -120,7 +124,7 @@ def run_case(case):
     start = case.get("start", 0.0)
     sysm, props = system_spec(case["system"], d, start)
     ns = case.get("num_steps") or n
-    ctrl, pre, post = control_spec(case["control"], d, ns)
+    ctrl, pre, post = control_spec(case["control"], d, ns, start)
     rho0 = M.generic_state(d, 2)
     kw = {}
     if case.get("subdiv", "default") is None:
@@ -170,6 +174,8 @@ def cases_single(tier):
                                                             [1, 2, 3], [0.0, 1.7, -0.3], ["default", None]):
         out.append({"fam": "prefix", "d": d, "n": 4, "envs": [(kind, e, 2, True, "explicit")], "system": "H(t)",
                     "control": "pre", "num_steps": nsub, "start": start, "subdiv": sub})
+        out.append({"fam": "prefix", "d": d, "n": 4, "envs": [(kind, e, 2, True, "explicit")], "system": "H(t)",
+                    "control": "pre-float", "num_steps": nsub, "start": start, "subdiv": sub})
     return out
 
 
